@@ -192,6 +192,11 @@ class Opa:
                 if d[0] == 'discr' and d[1][0] == 'call' and d[1][1] == 'try_branch_option':
                     # Continue(0) <=> Some(1), Break(1) <=> None(0)
                     d = ('discr', d[1][2][0])
+                    # a known Option (e.g. substituted by a case analysis): its discriminant is its variant index
+                    if d[1][0] == 'variant' and d[1][1] == 'std::option::Option':
+                        d = ('const', d[1][2])
+                    elif d[1][0] == 'set' and all(x[0] == 'variant' and x[1] == 'std::option::Option' for x in d[1][1]):
+                        d = mk_set([('const', x[2]) for x in d[1][1]], self.width)
                     arms = [[str(1 - int(v)), tgt] for v, tgt in t['arms'] if int(v) in (0, 1)]
                     other = t['otherwise']
                     have = {int(v) for v, _ in arms}
